@@ -71,6 +71,8 @@ pub enum Op {
     Purge(LogId),
     Commit(LogId),
     UserData(Option<String>),
+    /// update_state(log_state().clone() with set_last(x)): a whole-state record that moves `last`
+    UpdateLast(Option<LogId>),
     /// flush with a callback; `wait` = block (in simulated time) until the ack
     Flush { wait: bool },
     FlushNone,
@@ -114,7 +116,7 @@ pub struct CAction {
 
 impl Op {
     pub fn is_write(&self) -> bool {
-        matches!(self, Op::Vote(_) | Op::Append(_) | Op::Truncate(_) | Op::Purge(_) | Op::Commit(_) | Op::UserData(_))
+        matches!(self, Op::Vote(_) | Op::Append(_) | Op::Truncate(_) | Op::Purge(_) | Op::Commit(_) | Op::UserData(_) | Op::UpdateLast(_))
     }
     pub fn short(&self) -> String {
         match self {
@@ -127,6 +129,7 @@ impl Op {
             Op::Purge(id) => format!("purge{id:?}"),
             Op::Commit(id) => format!("commit{id:?}"),
             Op::UserData(d) => format!("user_data({})", d.as_ref().map(|s| s.len() as i64).unwrap_or(-1)),
+            Op::UpdateLast(l) => format!("update_state(last={l:?})"),
             Op::Flush { wait } => format!("flush(wait={wait})"),
             Op::FlushNone => "flush(None)".into(),
             Op::Read(a, b) => format!("read({a},{b})"),
